@@ -813,7 +813,7 @@ func runHelpers(cs *fw.Case, idx int) {
 			// all quantities are small integers: exact in every element type
 			if g := got.ConstAt(i, j).GetFloat64(); g != want.at(i, j) {
 				kind := "wrong-entry"
-				if want.at(i, j) == 0 && g == 111 {
+				if recvState == "prefilled" && xState != "stale-derivatives" && want.at(i, j) == 0 && g == 111 {
 					kind = "stale-entry"
 				}
 				cs.Violation(sg(kind), cfgLabel+": "+fmt.Sprintf("entry (%d,%d) = %v, the partial derivative is %v", i, j, g, want.at(i, j)), wit)
